@@ -479,6 +479,17 @@ func solve(q *Query, workdir string, timeoutS int, allSolvers bool) {
 	}
 	start := time.Now()
 	defer func() { q.Millis = time.Since(start).Milliseconds() }()
+	if q.IsCover {
+		// vacuity probe: only an "unsat" answer matters; a short single-solver attempt suffices
+		res, out := runSolver(solvers[0], file, 3)
+		q.Result, q.Solver = res, solvers[0].name
+		if res != "unsat" {
+			os.Remove(file)
+		} else {
+			q.Model = out
+		}
+		return
+	}
 	order := solvers
 	if h := solverHints[stripTarget(q.Obligation)]; h != "" {
 		// the solver that discharged this obligation on the inventory run goes first
